@@ -17,7 +17,7 @@ from picosvg.svg_transform import Affine2D
 from picosvg.svg_types import SVGPath, SVGShape
 
 from pyvc.registry import obligation
-from pyvc.sym import And, Or
+from pyvc.sym import And, Not, Or
 
 from . import fake_tree
 from .c06_gradients import _AffTok, _install_transform_tokens
@@ -246,3 +246,411 @@ def gradient_template(H):
     H.prove(len(kids) == 1 and kids[0].attrib.get("stop-color") == want, "template.stops_from_nearest_template_that_has_some")
     if kids and stops_at != "top":
         H.prove("id" not in kids[0].attrib and kids[0] is not (list(mid) or list(base) or [None])[0], "template.copied_stops_are_copies_without_ids")
+
+
+class _VBTok:
+    """a viewBox attribute value standing for a symbolic rectangle"""
+    __pyvc_abstract__ = True
+
+    def __init__(self, rect):
+        self.rect = rect
+
+    def __pyvc_truth__(self, interp):
+        return True
+
+    def __pyvc_copy__(self):
+        return self
+
+
+@obligation(("C02", "C03"), "nested.viewport", split=("overflow", (None, "hidden", "visible", "scroll")), functions=["svg.SVG._unnest_svg", "svg.SVG._iter_nested_svgs", "svg.SVG._swap_elements"])
+def nested_viewport(H):
+    """_unnest_svg: the inner svg becomes a group holding its children in order; a point of the content is mapped by the
+    viewBox->viewport mapping (rect_to_rect(viewBox, viewport, preserveAspectRatio, default xMidYMid) when a viewBox is
+    given, translate(x, y) otherwise) FIRST and by the svg's own transform second; width / height default to the enclosing
+    size; unless overflow is visible the group is clipped to the viewport rectangle (x, y, width, height) through a fresh
+    clipPath; any other overflow value is refused."""
+    from picosvg.geometric_types import Rect
+    from picosvg import svg_meta
+
+    if H.mode == "concrete":
+        doc = ('<svg xmlns="http://www.w3.org/2000/svg" viewBox="0 0 100 100"><svg x="10" y="20" width="40" height="40" viewBox="0 0 20 20" transform="translate(1 2)"><rect width="20" height="20"/></svg></svg>')
+        out = SVG.fromstring(doc).topicosvg()
+        bb = [s.bounding_box() for s in out.shapes()][0]
+        H.prove(abs(bb.x - 11) < 1e-6 and abs(bb.y - 22) < 1e-6 and abs(bb.w - 40) < 1e-6 and abs(bb.h - 40) < 1e-6, "nested.viewbox_onto_viewport_then_own_transform", detail=str(bb))
+        return
+    fake_tree.install(H)
+    fake_tree.install_xpath(H, SVG)
+    _install_transform_tokens(H)
+    has_xy = H.case("has_x_y", (True, False))
+    has_wh = H.case("has_width_height", (True, False))
+    has_vb = H.case("has_viewBox", (True, False))
+    par = H.case("preserveAspectRatio", (None, "xMinYMax slice"))
+    has_tr = H.case("has_transform", (True, False))
+    overflow = H.case("overflow", (None, "hidden", "visible", "scroll"))
+    if par and not has_vb:
+        return  # preserveAspectRatio is only read together with a viewBox
+    xs, xn = numstr(H, "x")
+    ys, yn = numstr(H, "y")
+    ws, wn = numstr(H, "w")
+    hs, hn = numstr(H, "h")
+    pw, ph = H.real("parent_w"), H.real("parent_h")
+    vb = Rect(*H.reals("vb", 4))
+    ttok, tm = _tok(H, "t")
+    attrib = {}
+    if has_xy:
+        attrib.update(x=xs, y=ys)
+    if has_wh:
+        attrib.update(width=ws, height=hs)
+    if has_vb:
+        attrib["viewBox"] = _VBTok(vb)
+    if par:
+        attrib["preserveAspectRatio"] = par
+    if has_tr:
+        attrib["transform"] = ttok
+    if overflow:
+        attrib["overflow"] = overflow
+    k1 = _el("path", {"d": "M0,0"})
+    innermost = _el("svg", {"width": "7"}, [_el("path", {"d": "M9,9"})])
+    k2 = _el("g", {}, [innermost])  # an svg nested in the nested svg, not a direct child
+    inner = _el("svg", attrib, [k1, k2])
+    root = _el("svg", {}, [inner, _el("clipPath", {"id": "nested-svg-viewport-0"})])
+    svg = SVG(root)
+    V = Affine2D(*H.reals("v", 6))
+    r2r = []
+
+    def rec_r2r(I, *a):
+        a = a[1:] if a and a[0] is Affine2D else a
+        r2r.append(a)
+        return V
+
+    H.override(Affine2D.__dict__["rect_to_rect"].__func__, rec_r2r)
+    H.override(svg_meta.parse_view_box, lambda I, s: s.rect)
+    H.override(S.parse_view_box, lambda I, s: s.rect)
+    real_unnest = SVG.__dict__["_unnest_svg"]
+    recursive = []
+    replacement = _el("g", {"id": "unnested-innermost"})
+
+    def rec_unnest(I, self_, el, w_, h_):
+        if el is inner:
+            return I.call_closure(I.closure_of(real_unnest), (self_, el, w_, h_), {})
+        recursive.append((el, w_, h_))
+        return (replacement,)
+
+    H.override(real_unnest, rec_unnest)
+    res, e = H.catch(SVG._unnest_svg, svg, inner, pw, ph)
+    if overflow == "scroll":
+        H.prove(isinstance(e, NotImplementedError), "nested.unsupported_overflow_is_refused", detail=repr(e))
+        return
+    H.prove(e is None, "nested.no_exception", detail=repr(e))
+    if e is not None:
+        return
+    x, y = (xn, yn) if has_xy else (0, 0)
+    w, h = (wn, hn) if has_wh else (pw, ph)
+    clipped = overflow != "visible"
+    ok = isinstance(res, tuple) and len(res) == (2 if clipped else 1)
+    H.prove(ok, "nested.overflow_hidden_clips_visible_does_not")
+    if not ok:
+        return
+    g = res[-1] if not clipped else (list(res[1]) or [None])[0]
+    H.prove(g is not None and local(g) == "g" and list(g) == [k1, k2] and len(inner) == 0, "nested.children_move_into_the_group_in_order")
+    if g is None:
+        return
+    # an svg inside the nested svg is resolved first, against the size of the viewBox it lives in (the viewport's when there is none)
+    ok = len(recursive) == 1 and recursive[0][0] is innermost and list(k2) == [replacement]
+    H.prove(ok, "nested.inner_svgs_are_unnested_too_in_place")
+    if ok:
+        ew, eh = (vb.w, vb.h) if has_vb else (wn if has_wh else pw, hn if has_wh else ph)
+        H.prove(And(H.close(recursive[0][1], ew), H.close(recursive[0][2], eh)), "nested.inner_svg_sized_by_the_enclosing_viewbox")
+    p = (H.real("px"), H.real("py"))
+    same = And(x == vb.x, y == vb.y, w == vb.w, h == vb.h) if has_vb else True
+    # viewport mapping
+    if r2r:
+        a = r2r[0]
+        ok = len(r2r) == 1 and len(a) == 3 and a[2] == (par or "xMidYMid")
+        H.prove(ok, "nested.preserveAspectRatio_defaults_to_xMidYMid")
+        if ok:
+            H.prove(And(H.close(tuple(a[0]), tuple(vb)), H.close(tuple(a[1]), (x, y, w, h))), "nested.viewbox_onto_viewport_in_that_order_default_size_is_parent_size")
+        q = map_pt(V, p)
+    else:
+        # no mapping asked for: only right without a viewBox, or when it coincides with the viewport
+        if has_vb:
+            H.prove(same, "nested.viewbox_ignored_only_if_equal_to_the_viewport")
+        q = (p[0] + x, p[1] + y)
+    if has_tr:
+        q = map_pt(tm, q)
+    tr = g.attrib.get("transform")
+    if tr is None:
+        # stated per matrix entry (six small queries instead of one point-mapping query)
+        from .spec import mat_mul, translate_m
+
+        total = tuple(V) if r2r else translate_m(x, y)
+        if has_tr:
+            total = mat_mul(tuple(tm), total)
+        for a_, b_ in zip(total, (1, 0, 0, 1, 0, 0)):
+            H.prove(H.close(a_, b_), "nested.no_transform_only_if_placement_is_identity")
+    else:
+        H.prove(isinstance(tr, _AffTok) and H.close(map_pt(tr.m, p), tuple(q)), "nested.viewbox_onto_viewport_then_own_transform")
+    if clipped:
+        cp, holder = res
+        H.prove(local(cp) == "clipPath" and local(holder) == "g" and holder.attrib.get("clip-path") == f"url(#{cp.attrib.get('id')})" and list(holder) == [g], "nested.group_clipped_through_the_new_clipPath")
+        H.prove(cp.attrib.get("id") not in (None, "nested-svg-viewport-0"), "nested.clipPath_id_is_fresh", detail=str(cp.attrib.get("id")))
+        rects = list(cp)
+        ok = len(rects) == 1 and local(rects[0]) == "rect"
+        H.prove(ok, "nested.clip_is_one_rectangle")
+        if ok:
+            ra = rects[0].attrib
+            val = lambda k: num_of(H, ra[k]) if k in ra else 0
+            H.prove(And(H.close(val("x"), x), H.close(val("y"), y), H.close(val("width"), w), H.close(val("height"), h)), "nested.clip_rectangle_is_the_viewport")
+            H.prove("transform" not in holder.attrib and "transform" not in cp.attrib and "transform" not in ra, "nested.viewport_clip_not_subject_to_the_content_transform")
+
+
+def _numbers_are_plain(H):
+    """symbolic attribute values stand for plain numbers (no unit, no percent sign)"""
+    if H.mode == "sym":
+        from pyvc.sym import SStr
+
+        H.interp.models[("symattr", SStr, "endswith")] = lambda s, *a: False
+        H.ctx.notes.append("symbolic gradient coordinates are plain numbers (percentages are covered by gradient.from_element)")
+
+
+def _decompose_stub(H, tau):
+    """Affine2D.decompose_translation replaced by its proven contract (affine.decompose, C11): (translate(t), linear part)
+    with  linear(t) within tau of the translation column"""
+    calls = []
+
+    def stub(I, self_):
+        tx, ty = H.real(f"tx{len(calls)}"), H.real(f"ty{len(calls)}")
+        a, b, c, d, e, f = self_
+        H.assume(And(a * tx + c * ty - e <= tau, e - a * tx - c * ty <= tau, b * tx + d * ty - f <= tau, f - b * tx - d * ty <= tau))
+        calls.append((self_, tx, ty))
+        return Affine2D(1, 0, 0, 1, tx, ty), Affine2D(a, b, c, d, 0, 0)
+
+    H.override(Affine2D.decompose_translation, stub)
+    return calls
+
+
+@obligation(("C06",), "gradient.translation", split=("gradient", ("linear", "radial")), functions=["svg.SVG._apply_gradient_translation", "svg.to_element"])
+def gradient_translation(H):
+    """_apply_gradient_translation: the translation part of gradientTransform moves into the coordinates.  Afterwards the
+    transform has no translation and its linear part is the old one (rounded to 6 digits); every coordinate PAIR - (x1,y1),
+    (x2,y2) of a linear gradient, (cx,cy) AND (fx,fy) of a radial one - is shifted by the same vector d with
+    linear(d) = old translation column (up to the 6-digit rounding of d); radii, units, spread, id and stops are untouched.
+    decompose_translation is used through its contract."""
+    if H.mode == "concrete":
+        doc = ('<svg xmlns="http://www.w3.org/2000/svg" viewBox="0 0 100 100"><defs><radialGradient id="g" gradientUnits="userSpaceOnUse" cx="10" cy="20" r="5" fx="12" fy="21" fr="1" '
+               'gradientTransform="matrix(2 0 0 4 6 8)" spreadMethod="reflect"><stop offset="0"/></radialGradient></defs></svg>')
+        svg = SVG.fromstring(doc)
+        g = svg.xpath("//svg:radialGradient")[0]
+        svg._apply_gradient_translation(g)
+        a = g.attrib
+        ok = (a["cx"], a["cy"], a["fx"], a["fy"], a["r"], a["fr"]) == ("13", "22", "15", "23", "5", "1") and a["gradientTransform"] == "matrix(2 0 0 4 0 0)" and a["spreadMethod"] == "reflect" and len(g) == 1
+        H.prove(ok, "translation.coordinates_shift_so_that_the_canvas_position_is_kept", detail=str(dict(a)))
+        return
+    fake_tree.install(H)
+    _install_transform_tokens(H)
+    _numbers_are_plain(H)
+    kind = H.case("gradient", ("linear", "radial"))
+    tau = 1e-9
+    calls = _decompose_stub(H, tau)
+    names = ("x1", "y1", "x2", "y2") if kind == "linear" else ("cx", "cy", "fx", "fy", "r", "fr")
+    pairs = (("x1", "y1"), ("x2", "y2")) if kind == "linear" else (("cx", "cy"), ("fx", "fy"))
+    defaults = {"x1": 0, "y1": 0, "x2": 100, "y2": 0, "cx": 50, "cy": 50, "r": 50, "fr": 0}
+    vals, attrib = {}, {"id": "g", "gradientUnits": "userSpaceOnUse", "spreadMethod": "reflect"}
+    for n in names:
+        attrib[n], vals[n] = numstr(H, n)
+    mtok, M = _tok(H, "m")
+    attrib["gradientTransform"] = mtok
+    stop = _el("stop", {"offset": "0"})
+    g = _el("linearGradient" if kind == "linear" else "radialGradient", attrib, [stop])
+    root = _el("svg", {"viewBox": "0 0 100 100"}, [_el("defs", {}, [g])])
+    svg = SVG(root)
+    _, e = H.catch(SVG._apply_gradient_translation, svg, g)
+    H.prove(e is None, "translation.no_exception", detail=repr(e))
+    if e is not None:
+        return
+    a = g.attrib
+    H.prove(a.get("id") == "g" and a.get("gradientUnits") == "userSpaceOnUse" and a.get("spreadMethod") == "reflect" and list(g) == [stop], "translation.id_units_spread_and_stops_untouched", detail=str(dict(a)))
+
+    def val(n):
+        if n in a:
+            return num_of(H, a[n])
+        if n in ("fx", "fy"):
+            return val("c" + n[1])
+        return defaults[n]
+
+    tr = a.get("gradientTransform")
+    Mn = tr.m if isinstance(tr, _AffTok) else Affine2D.identity()
+    H.prove(tr is None or isinstance(tr, _AffTok), "translation.transform_written_as_a_matrix")
+    H.prove(And(H.close(Mn[4], 0), H.close(Mn[5], 0)), "translation.no_translation_left_in_the_transform")
+    for i in range(4):
+        H.prove(And(Mn[i] - M[i] <= 5e-7, M[i] - Mn[i] <= 5e-7), "translation.linear_part_kept_up_to_rounding")
+    if kind == "radial":
+        H.prove(And(H.close(val("r"), vals["r"]), H.close(val("fr"), vals["fr"])), "translation.radii_untouched")
+    ma, mb, mc, md, me, mf = M
+    absv = lambda v: (v if H.truth(v >= 0) else -v)
+    slack_x = (absv(ma) + absv(mc)) * 5e-7 + tau + 1e-12
+    slack_y = (absv(mb) + absv(md)) * 5e-7 + tau + 1e-12
+    for xn, yn in pairs:
+        dx, dy = val(xn) - vals[xn], val(yn) - vals[yn]
+        ex, ey = ma * dx + mc * dy - me, mb * dx + md * dy - mf
+        H.prove(And(ex <= slack_x, -ex <= slack_x), f"translation.coordinates_shift_so_that_the_canvas_position_is_kept")
+        H.prove(And(ey <= slack_y, -ey <= slack_y), f"translation.coordinates_shift_so_that_the_canvas_position_is_kept")
+    H.prove(len(calls) == 1, "translation.decomposed_once")
+
+
+@obligation(("C06", "C08"), "gradient.transformed", functions=["svg.SVG._transformed_gradient", "svg.SVG._new_id", "svg.SVG._add_to_defs", "svg_types._SVGGradient.as_user_space_units"])
+def gradient_transformed(H):
+    """_transformed_gradient(defs, fill, CTM, bbox): a NEW gradient element is added to defs under an id nothing else uses;
+    it is in user space and its gradientTransform maps a point by the source gradient's own transform first, then (for
+    objectBoundingBox units) the unit square onto the shape's bounding box, then the shape's CTM - each entry rounded to 6
+    digits; stops are copied; the translation is folded afterwards (gradient.translation); the source gradient is untouched."""
+    from picosvg.geometric_types import Rect
+
+    from .spec import mat_mul
+
+    if H.mode == "concrete":
+        doc = ('<svg xmlns="http://www.w3.org/2000/svg" viewBox="0 0 100 100"><defs><linearGradient id="g" gradientTransform="scale(2)"><stop offset="0"/></linearGradient><linearGradient id="g_0"/></defs></svg>')
+        svg = SVG.fromstring(doc)
+        src = svg.xpath('//svg:linearGradient[@id="g"]')[0]
+        new = svg._transformed_gradient(svg.xpath("//svg:defs")[0], src, Affine2D(0, 1, -1, 0, 0, 0), Rect(10, 20, 30, 40))
+        m = tuple(Affine2D.fromstring(new.attrib["gradientTransform"]))
+        H.prove(m[:4] == (0.0, 60.0, -80.0, 0.0), "transformed.own_then_bbox_then_ctm", detail=str(dict(new.attrib)))
+        H.prove(new.attrib["id"] == "g_1" and len(new) == 1 and src.attrib.get("gradientTransform") == "scale(2)", "transformed.fresh_id_source_untouched")
+        return
+    fake_tree.install(H)
+    fake_tree.install_xpath(H, SVG)
+    _install_transform_tokens(H)
+    units = H.case("units", ("objectBoundingBox", "userSpaceOnUse", None))
+    own = H.case("source_has_gradientTransform", (True, False))
+    taken = H.case("first_candidate_id_taken", (True, False))
+    gtok, GT = _tok(H, "gt")
+    T = Affine2D(*H.reals("t", 6))
+    bbox = Rect(*H.reals("bb", 4))
+    H.assume(And(bbox.w > 0, bbox.h > 0))
+    attrib = {"id": "g", "x1": "0", "y1": "0", "x2": "1", "y2": "0"}
+    if units:
+        attrib["gradientUnits"] = units
+    if own:
+        attrib["gradientTransform"] = gtok
+    s1, s2 = _el("stop", {"offset": "0", "stop-color": "red"}), _el("stop", {"offset": "1", "stop-color": "blue"})
+    src = _el("linearGradient", attrib, [s1, s2])
+    before = dict(src.attrib)
+    defs = _el("defs", {}, [src] + ([_el("linearGradient", {"id": "g_0"})] if taken else []))
+    root = _el("svg", {"viewBox": "0 0 100 100"}, [defs])
+    svg = SVG(root)
+    folded = []
+    H.override(SVG._apply_gradient_translation, lambda I, self_, el: folded.append((el, el.getparent() is not None)))
+    new, e = H.catch(SVG._transformed_gradient, svg, defs, src, T, bbox)
+    H.prove(e is None, "transformed.no_exception", detail=repr(e))
+    if e is not None:
+        return
+    H.prove(new is not src and local(new) == "linearGradient" and sum(1 for k in defs if k is new) == 1, "transformed.new_element_added_to_defs_once")
+    want_id = "g_1" if taken else "g_0"
+    H.prove(new.attrib.get("id") == want_id and sum(1 for k in root.iterdescendants() if k.attrib.get("id") == want_id) == 1, "transformed.id_is_fresh", detail=str(new.attrib.get("id")))
+    H.prove(dict(src.attrib) == before and list(src) == [s1, s2], "transformed.source_gradient_untouched")
+    kids = list(new)
+    H.prove(len(kids) == 2 and all(a is not b for a in kids for b in (s1, s2)) and [k.attrib.get("stop-color") for k in kids] == ["red", "blue"], "transformed.stops_are_copied_in_order")
+    H.prove(new.attrib.get("gradientUnits") == "userSpaceOnUse", "transformed.result_is_in_user_space", detail=str(new.attrib.get("gradientUnits")))
+    H.prove(len(folded) == 1 and folded[0][0] is new, "transformed.translation_folded_on_the_new_gradient")
+    # expected matrix, entry by entry
+    exp = tuple(GT) if own else (1, 0, 0, 1, 0, 0)
+    if units != "userSpaceOnUse":
+        exp = mat_mul((bbox.w, 0, 0, bbox.h, bbox.x, bbox.y), exp)
+    exp = mat_mul(tuple(T), exp)
+    tr = new.attrib.get("gradientTransform")
+    got = tuple(tr.m) if isinstance(tr, _AffTok) else (1, 0, 0, 1, 0, 0)
+    for i in range(6):
+        H.prove(And(got[i] - exp[i] <= 5e-7, exp[i] - got[i] <= 5e-7), "transformed.own_then_bbox_then_ctm")
+
+
+@obligation(("C19",), "viewbox.clip", functions=["svg.SVG.clip_to_viewbox", "svg.SVG._elements", "svg.SVG._set_element", "svg.SVG._update_etree", "geometric_types.Rect.intersection"])
+def viewbox_clip(H):
+    """clip_to_viewbox(inplace=True) on one rectangle: a shape whose bounding box misses the viewBox is removed; one that
+    lies inside is left exactly as it was; one that straddles the border is replaced by the intersection of its outline
+    (under its own fill rule) with the rectangle  bounding box INTERSECT viewBox  (clip rule of a plain rectangle), written
+    back as a nonzero path in the same place."""
+    import dataclasses
+
+    from picosvg.geometric_types import Rect
+    from picosvg import svg_meta
+    from picosvg.svg_types import SVGPath, SVGRect, SVGShape
+    from pyvc.sym import smax, smin
+
+    if H.mode == "concrete":
+        doc = '<svg xmlns="http://www.w3.org/2000/svg" viewBox="10 10 50 50"><rect x="0" y="20" width="30" height="10"/><rect x="70" y="0" width="5" height="5"/><rect x="20" y="20" width="5" height="5"/></svg>'
+        out = SVG.fromstring(doc).clip_to_viewbox()
+        bbs = [s.bounding_box() for s in out.shapes()]
+        H.prove(len(bbs) == 2 and abs(bbs[0].x - 10) < 1e-9 and abs(bbs[0].w - 20) < 1e-9 and bbs[1] == Rect(20, 20, 5, 5), "viewbox.clip_rectangle_is_bbox_intersect_viewbox", detail=str(bbs))
+        return
+    fake_tree.install(H)
+    fake_tree.install_xpath(H, SVG)
+    where = H.case("rect_is", ("outside", "inside", "straddling"))
+    vb = Rect(*H.reals("vb", 4))
+    H.assume(And(vb.w > 0, vb.h > 0))
+    xs, x = numstr(H, "x")
+    ys, y = numstr(H, "y")
+    ws, w = numstr(H, "w")
+    hs, h = numstr(H, "h")
+    H.assume(And(w > 0, h > 0))
+    ix0, iy0 = smax(x, vb.x), smax(y, vb.y)
+    ix1, iy1 = smin(x + w, vb.x + vb.w), smin(y + h, vb.y + vb.h)
+    overlap = And(ix1 > ix0, iy1 > iy0)
+    inside = And(x >= vb.x, y >= vb.y, x + w <= vb.x + vb.w, y + h <= vb.y + vb.h)
+    H.assume({"outside": Or(ix1 < ix0, iy1 < iy0), "inside": inside, "straddling": And(overlap, Not(inside))}[where])
+    rect = _el("rect", {"x": xs, "y": ys, "width": ws, "height": hs, "fill-rule": "evenodd", "fill": "red"})
+    before_attrib = dict(rect.attrib)
+    neighbour = _el("path", {"d": "M0,0"})
+    holder = _el("g", {"opacity": "0.5"}, [neighbour, rect])
+    root = _el("svg", {"viewBox": _VBTok(vb)}, [holder])
+    svg = SVG(root)
+    H.override(svg_meta.parse_view_box, lambda I, s: s.rect)
+    H.override(S.parse_view_box, lambda I, s: s.rect)
+    as_path_calls, inter = [], []
+
+    def rec_as_path(I, self_):
+        as_path_calls.append(self_)
+        return SVGPath(d="M1,1 L2,2 L3,1 Z", fill_rule=self_.fill_rule, clip_rule=self_.clip_rule, fill=self_.fill)
+
+    def rec_intersection(I, shapes, fill_rules=None):
+        shapes = tuple(shapes)
+        inter.append((shapes, tuple(fill_rules) if fill_rules is not None else None))
+        return (("M", (0.0, 0.0)), ("L", (2.0, 0.0)), ("L", (2.0, 2.0)), ("Z", ()))
+
+    H.override(SVGRect.as_path, rec_as_path)
+    H.override(S.intersection, rec_intersection)
+    # bounds come from Skia (assumed contract, section 3.2 / pathops.bounding_box of C13): a rectangle's outline is bounded by the
+    # rectangle itself; the neighbour path fills the viewBox exactly and must therefore be left alone
+    H.override(SVGShape.bounding_box, lambda I, self_: Rect(self_.x, self_.y, self_.width, self_.height) if isinstance(self_, SVGRect) else Rect(vb.x, vb.y, vb.w, vb.h))
+    res, e = H.catch(SVG.clip_to_viewbox, svg, inplace=True)
+    H.prove(e is None and res is svg, "viewbox.no_exception_returns_self", detail=repr(e))
+    if e is not None:
+        return
+    kids = [k for k in root.iterdescendants() if local(k) in ("rect", "path") and k is not neighbour and k.attrib.get("d") != "M0,0"]
+    if where == "outside":
+        H.prove(not kids and not inter, "viewbox.shape_outside_is_removed", detail=str([local(k) for k in root.iterdescendants()]))
+        return
+    if where == "inside":
+        ok = not inter and len(kids) == 1 and local(kids[0]) == "rect" and kids[0].getparent() is holder
+        H.prove(ok, "viewbox.shape_inside_is_left_alone", detail=str([dict(k.attrib) for k in kids]))
+        if ok:
+            # the cache writes every shape back: the same rectangle (numbers re-printed, zero coordinates omitted), same paint
+            a = kids[0].attrib
+            val = lambda k: num_of(H, a[k]) if k in a else 0
+            H.prove(And(H.close(val("x"), x), H.close(val("y"), y), H.close(val("width"), w), H.close(val("height"), h)), "viewbox.shape_inside_is_left_alone")
+            H.prove(a.get("fill") == "red" and a.get("fill-rule") == "evenodd", "viewbox.shape_inside_is_left_alone", detail=str(dict(a)))
+        return
+    H.prove(len(inter) == 1, "viewbox.straddling_shape_is_intersected_once", detail=str(len(inter)))
+    if len(inter) != 1:
+        return
+    shapes, rules = inter[0]
+    clip_rects = [r for r in as_path_calls if r.fill_rule != "evenodd"]
+    ok = len(shapes) == 2 and len(clip_rects) == 1 and rules == ("evenodd", "nonzero")
+    H.prove(ok, "viewbox.shape_under_its_fill_rule_clip_under_plain_rule", detail=str(rules))
+    if ok:
+        c = clip_rects[0]
+        H.prove(And(H.close(c.x, ix0), H.close(c.y, iy0), H.close(c.width, ix1 - ix0), H.close(c.height, iy1 - iy0)), "viewbox.clip_rectangle_is_bbox_intersect_viewbox")
+        H.prove(And(H.close(c.rx, 0), H.close(c.ry, 0)), "viewbox.clip_rectangle_has_square_corners")
+    H.prove(len(kids) == 1 and local(kids[0]) == "path" and kids[0].getparent() is holder and list(holder)[1] is kids[0], "viewbox.clipped_shape_written_back_in_place", detail=str([local(k) for k in holder]))
+    if len(kids) == 1:
+        a = kids[0].attrib
+        H.prove(a.get("d", "").replace(" ", "").startswith("M0,0L2,0") and a.get("fill-rule", "nonzero") == "nonzero" and a.get("fill") == "red", "viewbox.result_is_the_intersection_nonzero_paint_kept", detail=str(dict(a)))
